@@ -49,6 +49,20 @@ def one(m, all_props):
             r = subprocess.run(["patch", "-p1", "-s", "-i", m["patch"]], cwd=repo, stdout=subprocess.PIPE, stderr=subprocess.PIPE, text=True)
             if r.returncode != 0:
                 return m["name"], "skipped", "patch does not apply: " + r.stdout[-200:], {}
+        elif "rename" in m:
+            # whole-word renames across src/ (module file names included)
+            import re
+            for root, dirs, files in os.walk(os.path.join(repo, "src")):
+                for fn in files:
+                    pp = os.path.join(root, fn)
+                    s = open(pp).read()
+                    for a, b in m["rename"]:
+                        s = re.sub(r"\b%s\b" % re.escape(a), b, s)
+                    open(pp, "w").write(s)
+            for a, b in m["rename"]:
+                old = os.path.join(repo, "src", a + ".rs")
+                if os.path.exists(old):
+                    os.rename(old, os.path.join(repo, "src", b + ".rs"))
         else:
             p = os.path.join(repo, m["file"])
             s = open(p).read()
